@@ -45,7 +45,8 @@ TRUSTED = list(c05.TRUSTED) + [
 ]
 ASSUMPTIONS = [
     'an exception raised inside nested blocks propagates to the outermost block (it is not caught between two block levels)',
-    'default settings (no statistics, least-recently-stored), so lookups take no lock; clock frozen during a run',
+    'default settings (no statistics, least-recently-stored), so lookups take no lock; clock frozen during a run '
+    '(the culling family adds size_limit=1 and cull_limit 1-3 on the clients\' objects, the policy stays least-recently-stored)',
     'FanoutCache blocks: concurrent writers use retry=True (a timed-out FanoutCache call is indistinguishable from a miss; see C14)',
     'maintenance family (another client\'s check / check(fix=True) against a block): monitor only; what check() itself returns or raises while others work is not '
     'decided here (on the unchanged tree check(fix=True) can raise OperationalError from its VACUUM and FileNotFoundError from its directory pruning)',
@@ -248,13 +249,13 @@ def check_run(r, case, stats):
     # final contents through the API + bookkeeping
     try:
         with instr.Installed(r['clock']):
-            snap = r['snapshot'] = concdrv.api_snapshot(r['dir'], kind, shards=shards)
+            snap = r['snapshot'] = concdrv.api_snapshot(r['dir'], kind, shards=shards, with_check=bool(case.get('with_check')))
     except Exception as e:  # noqa
         return [('unusable_after_run', 'the directory cannot be opened/read after all clients finished: %r' % e)]
     # (i) abort = snapshot before equals snapshot after (no concurrent writer, block client otherwise read-only)
     if aborted and case.get('flavour') == 'abort_solo' and r.get('before') is not None:
         stats['abort_snapshots_compared'] += 1
-        diffs = [k for k in ('items', 'len', 'counters', 'files') if r['before'][k] != snap[k]]
+        diffs = [k for k in ('items', 'len', 'counters', 'files') + (('check',) if case.get('with_check') else ()) if r['before'].get(k) != snap.get(k)]
         if diffs:
             out.append(('abort_changed_state', 'after the aborted block the %s differ: before %r, after %r' % (
                 '/'.join(diffs), {k: r['before'][k] for k in diffs}, {k: snap[k] for k in diffs})))
@@ -262,7 +263,7 @@ def check_run(r, case, stats):
         out.append((sig, text))
     # (ii) atomicity: linearizability with the block as one action
     acts = actions_with_blocks(r['calls'])
-    init = make_ref(kind, setup)
+    init = init_ref(case)
     fin = final_matches(kind, snap)
     res = linearize(acts, init, fin)
     if res is None:
@@ -322,6 +323,22 @@ def check_run(r, case, stats):
     if out:
         out = classify(out, r, case, snap, spans)
     return log_viol + out
+
+
+def init_ref(case):
+    """the reference contents after the setup; when the setup ran under settings of its own (cull_limit), the reference setup does too"""
+    kind, ss = case['kind'], case.get('setup_settings')
+    if not ss or kind not in ('cache', 'fanout'):
+        return make_ref(kind, case['setup'])
+    ref = make_ref(kind, None)
+    ref.cull_limit = ss.get('cull_limit', 10)
+    for call in case['setup']:
+        try:
+            ref.apply(call)
+        except c05.Raise:
+            pass
+    ref.cull_limit = (case.get('settings') or {}).get('cull_limit', 10)
+    return ref
 
 
 def filed_value(v):
@@ -605,6 +622,54 @@ def corpus():
     ]
 
 
+def cull_abort_cases(thorough=False):
+    """Aborted blocks in which a WRITE CULLS file-backed items automatically (nobody asked for their removal): the store of
+    set / add / incr runs the per-write culling, which removes (a) expired rows and (b), once the volume exceeds size_limit under
+    an evicting policy, live rows -- up to cull_limit of them.  The block then raises: the rows come back with the ROLLBACK and so
+    must their values ("including large values removed inside the block").  The setup runs without a size limit and with cull_limit 0 (it removes
+    nothing, not even the rows stored as already expired); the clients' objects carry size_limit=1, cull_limit 1..3.  Cache and FanoutCache (Index / Deque never evict and
+    cannot store expiring items); nesting depth 1..3; the culling call first / after another write / before another write;
+    new value inline or file-backed.  Afterwards: abort snapshot equality (items read through the API, counters, files, the
+    warnings of check()), bookkeeping, and the read-back of every live key explained by "the block did nothing"."""
+    t = True
+    out = []
+    live = ['a', 'b', 'c', 'd']
+    for kind in ('cache', 'fanout'):
+        for variant in ('evict', 'expired', 'both'):
+            for trig in ('set', 'add', 'incr', 'setitem'):
+                for depth in ((1, 2, 3) if thorough else (1, 2)):
+                    for cull_limit in ((1, 2, 3) if thorough else (2,)):
+                        for filed_new in (False, True):
+                            if trig == 'incr' and filed_new:
+                                continue
+                            if not thorough and (depth + filed_new + len(trig) + len(variant) + len(kind)) % 2 and trig != 'set':
+                                continue        # (quick tier: half of the non-set combinations)
+                            setup = [{'op': 'set', 'key': k, 'value': 'S' + k + '-' * (10 + i), 'retry': t} for i, k in enumerate(live)]
+                            setup.insert(2, {'op': 'set', 'key': 'i', 'value': 3, 'retry': t})
+                            if variant in ('expired', 'both'):
+                                setup += [{'op': 'set', 'key': 'x', 'value': 'X' + '=' * 12, 'expire': -1, 'retry': t},
+                                          {'op': 'set', 'key': 'y', 'value': 'Y' + '=' * 14, 'expire': -2, 'tag': 'grp', 'retry': t}]
+                            settings = dict(SETTINGS, cull_limit=cull_limit)
+                            if variant in ('evict', 'both'):
+                                settings['size_limit'] = 1
+                            c = {'op': trig, 'key': 'n'}
+                            if trig != 'incr':
+                                c['value'] = ('N' + '+' * 15) if filed_new else 7
+                            if trig != 'setitem':
+                                c['retry'] = t
+                            body = [c]
+                            if depth == 2:
+                                body = [{'op': 'set', 'key': 'i', 'value': 4, 'retry': t}, {'op': 'begin_block'}, c, {'op': 'end_block'}]
+                            elif depth == 3:
+                                body = [{'op': 'begin_block'}, {'op': 'begin_block'}, c, {'op': 'end_block'}, {'op': 'set', 'key': 'i', 'value': 5, 'retry': t}, {'op': 'end_block'}]
+                            opens = sum(1 for q in body if q['op'] == 'begin_block') - sum(1 for q in body if q['op'] == 'end_block')
+                            prog = [{'op': 'begin_block'}] + body + [{'op': 'raise_in_block'}] + [{'op': 'end_block'}] * (opens + 1)
+                            out.append({'check': 'block', 'kind': kind, 'mode': 'own', 'setup': setup, 'schedule': [], 'flavour': 'abort_solo', 'shards': 2,
+                                        'settings': settings, 'setup_settings': dict(SETTINGS, cull_limit=0), 'with_check': True, 'family': 'cull_abort:' + variant,
+                                        'programs': [prog + readback(kind, live + ['i', 'n'])]})
+    return out
+
+
 def handover_cases(ctx):
     """Two threads sharing ONE Cache object: a single write (client 1) ends while the block client (client 0) is queueing
     for the lock.  The scheduler can switch threads right after a BEGIN / COMMIT / ROLLBACK statement has executed
@@ -882,6 +947,7 @@ def new_stats():
 
 def run_case(ctx, res, stats, case, label, record=True):
     kind, mode = case['kind'], case['mode']
+    settings = case.get('settings') or SETTINGS
     if case.get('schedule') is None and case.get('until_first'):
         # client 0 runs up to and including its first event of the given kind, then client 1 runs to its end, then client 0
         seqs = concdrv.solo_events(ctx, case['programs'], settings=SETTINGS, setup=case['setup'], kind=kind, mode=mode, shards=case.get('shards', 2))
@@ -893,16 +959,20 @@ def run_case(ctx, res, stats, case, label, record=True):
     # the state before the block, through the API (quiescent: taken after the setup, before any client starts)
     if case.get('flavour') == 'abort_solo':
         with instr.Installed(clock):
-            so = concdrv.make_object(kind, d, SETTINGS, timeout=60, shards=case.get('shards', 2))
+            # (the setup runs under 'setup_settings' when the case has them -- e.g. without a size limit, so that the setup itself
+            #  evicts nothing -- and the clients under 'settings')
+            so = concdrv.make_object(kind, d, case.get('setup_settings') or settings, timeout=60, shards=case.get('shards', 2))
             try:
                 concdrv.run_sequential(so, kind, case['setup'])
             finally:
                 concdrv.close_object(so)
-            before = concdrv.api_snapshot(d, kind, shards=case.get('shards', 2))
-        r = concdrv.run_program(ctx, case['programs'], case['schedule'], mode=mode, settings=SETTINGS, setup=None, kind=kind,
+            if case.get('settings'):
+                concdrv.close_object(concdrv.make_object(kind, d, settings, timeout=60, shards=case.get('shards', 2)))   # the clients' settings, stored
+            before = concdrv.api_snapshot(d, kind, shards=case.get('shards', 2), with_check=bool(case.get('with_check')))
+        r = concdrv.run_program(ctx, case['programs'], case['schedule'], mode=mode, settings=settings, setup=None, kind=kind,
                                 shards=case.get('shards', 2), directory=d, max_steps=8000)
     else:
-        r = concdrv.run_program(ctx, case['programs'], case['schedule'], mode=mode, settings=SETTINGS, setup=case['setup'], kind=kind,
+        r = concdrv.run_program(ctx, case['programs'], case['schedule'], mode=mode, settings=settings, setup=case['setup'], kind=kind,
                                 shards=case.get('shards', 2), directory=d, max_steps=8000)
     r['before'] = before
     stats['runs'] += 1
@@ -911,11 +981,14 @@ def run_case(ctx, res, stats, case, label, record=True):
     stats['contended'] += int(r['begin_failures'] > 0)
     stats['overflow'] += int(r['overflow'])
     viol = check_run(r, case, stats)
+    if case.get('family', '').startswith('cull_abort'):
+        # (not vacuous: a call inside the block deleted rows nobody asked it to delete)
+        stats['culling_blocks'] = stats.get('culling_blocks', 0) + int(any('sql:DELETE' in rec.get('events', []) for rec in r['calls'][0]))
     case = dict(case, schedule=r['schedule_used'])
     nontrivial = len([p for p in case['programs'] if p]) > 1 or case.get('flavour', '').startswith('abort')
     res.count([case['programs'], case['setup'], case['schedule'], kind, mode], nontrivial=nontrivial)
     if record:
-        TRACE_RECORDS.append(c05.trace_record(r, case['programs'], case['schedule'], case['setup'], mode, SETTINGS, kind))
+        TRACE_RECORDS.append(c05.trace_record(r, case['programs'], case['schedule'], case['setup'], mode, settings, kind))
     for sig, desc in viol[:3]:
         res.violations.append(fw.Violation(sig, '%s [%s, %s/%s]' % (desc, label, kind, mode), dict(case, label=label)))
         stats['known_by_sig'][sig] = stats['known_by_sig'].get(sig, 0) + 1
@@ -939,7 +1012,10 @@ def run(ctx, big=False):
                 '(programs, setup, executed schedule, kind, mode).  Maintenance: a block that stores, replaces and pops file-backed values (commit and raise; '
                 'Cache, FanoutCache, Index, Deque) against another client\'s check() / check(fix=True) (retry on / off): the check\'s first i events, then the '
                 'block\'s first j events, then the rest of each, and the mirror image, with scheduling points right after BEGIN / COMMIT / ROLLBACK; '
-                'afterwards the contents read through the API are those the block alone leaves, the bookkeeping is consistent and check() is silent.')
+                'afterwards the contents read through the API are those the block alone leaves, the bookkeeping is consistent and check() is silent.  '
+                'Culling inside an aborted block: Cache / FanoutCache blocks (nesting depth 1-3) in which a set / setitem / add / incr culls file-backed items nobody '
+                'asked it to remove -- expired rows, and live rows evicted because the clients\' objects carry size_limit=1 (cull_limit 1-3; the setup ran without '
+                'limit) -- and which then raise: items read through the API, counters, value files and the warnings of check() as before the block.')
     stats = new_stats()
     t0 = _time.time()
     thorough = (not ctx.quick) or big
@@ -952,6 +1028,11 @@ def run(ctx, big=False):
             res.extra.setdefault('witnesses_no_longer_failing', []).append(sig)
     for case in corpus():
         run_case(ctx, res, stats, case, 'corpus')
+    culls = cull_abort_cases(thorough)
+    for n, case in enumerate(culls):
+        run_case(ctx, res, stats, case, 'cull-abort:%d' % n, record=False)
+    res.extra['cull_abort_cases'] = len(culls)
+    res.extra['cull_abort_blocks_that_culled'] = stats.get('culling_blocks', 0)
     maintenance(ctx, res, stats, thorough, _time.time() + (60 if not thorough else 240))
     for n, case in enumerate(handover_cases(ctx)):
         run_case(ctx, res, stats, case, 'handover:%d' % n, record=n < 10)
